@@ -8,9 +8,11 @@ class C25(Spec):
     required_theorems = ("C25.connect_disconnect_inverse", "C25.reorg_lands", "C25.persisted_is_view",
                          "C25.tip_is_max", "C25.tie_keeps_tip", "C25.accepted_closure", "C25.order_independent",
                          "C25X.order_independent_events", "C25X.noPoolBound_false", "C25X.noTimeBound_false",
-                         "C25X.finalFinSuffices_false")
-    partial = ()
-    refuted = ("C25X.noPoolBound_false", "C25X.noTimeBound_false", "C25X.finalFinSuffices_false")
+                         "C25X.finalFinSuffices_false", "C25X.probe_finish", "C25X.crun_sequential",
+                         "C25X.orderIndependentConcurrent_false")
+    refuted = ("C25X.noPoolBound_false", "C25X.noTimeBound_false", "C25X.finalFinSuffices_false",
+               "C25X.orderIndependentConcurrent_false")
+    partial = ("C25.order_independent", "C25X.order_independent_events")
     quick_timeout = 600
     thorough_timeout = 3600
     level_text = ("Lean theorems about the model of ProcessBlock / orphan pool / connectBestChain / reorganizeChain: for EVERY "
@@ -32,6 +34,9 @@ class C25(Spec):
                   "limits (102400/10240), EnableBestBlockCmp are outside the model; TxResult index/receipts, address "
                   "indexes and the state at the tip are compared on the implementation only.")
     assumptions = (
+        "ProcessBlock calls are SERIALISED (deliverAll/runX fold whole ProcessBlock calls). The node itself runs one "
+        "goroutine per block message and the first half of ProcessBlock is outside chainLock: with overlapping calls "
+        "order_independent is false (C25X.orderIndependentConcurrent_false; reproduced on the real node, findings.d/C25.json)",
         "delivered blocks are valid and execute successfully (invalid blocks are C27)",
         "index cache (102400) and best-chain cache / InitBlockNum (10240) are not reached",
         "convergence: tree no larger than maxOrphanBlocks, run shorter than orphanExpirationTime, no restart (explicit hypotheses, witnesses show they are needed)",
@@ -39,8 +44,16 @@ class C25(Spec):
         "difficulty.CalcWork behaves as C20.calcWork (tied by C20)",
     )
 
+    RACE_SIG = "C25|ProcessBlock|concurrent-child-stranded-in-orphan-pool"
+
     def runs(self, tier, seed):
-        return [dict(env={})]
+        rs = [dict(env={})]
+        # the concurrent-delivery experiment (timing dependent) only runs once its finding is listed:
+        # a reproduction is then reported as KNOWN-FINDING, never as a fresh VIOLATION
+        from .. import core
+        if self.RACE_SIG in core.known_signatures("C25"):
+            rs.append(dict(env={"VERIF_C25_RACE": "2000,0" if tier == "thorough" else "300,0"}))
+        return rs
 
 
 SPEC = C25()
